@@ -14,6 +14,69 @@ From Bnum.Generated Require Import DigitGen.
 
 Module RandGen.
 
+(* src/buint/bigint_helpers.rs: fn widening_mul *)
+Definition widening_mul (w N : Z) (fuel : nat) (self : list Z) (rhs : list Z) : res (list Z * list Z) :=
+  let low := (ZERO (Z.to_nat N)) in
+  let high := (ZERO (Z.to_nat N)) in
+  let carry := 0 in (* declared without initialiser *)
+  let i := 0 in
+  t13' <- while_loop (R := (list Z * list Z)) fuel
+    (fun '(low, high, carry, i) => (i <? N))
+    (fun '(low, high, carry, i) =>
+      let carry := 0 in
+      let j := 0 in
+      t5' <- while_loop (R := (list Z * list Z)) fuel
+        (fun '(low, carry, j) => true)
+        (fun '(low, carry, j) =>
+          t1' <- usub N i ;;
+          if (j <? t1') then (
+            let index := (i + j) in
+            t2' <- arr_get low index ;;
+            let d := t2' in
+            t3' <- arr_get self i ;;
+            t4' <- arr_get rhs j ;;
+            let '(new_digit, new_carry) := (DigitGen.carrying_mul w t3' t4' carry d) in
+            let carry := new_carry in
+            low <- arr_set low index new_digit ;;
+            let j := (j + 1) in
+            Done (Continue (low, carry, j))
+          ) else (
+            Done (Break (low, carry, j))
+          ))
+        (low, carry, j) ;;
+      match t5' with
+      | Exited (low, carry, j) =>
+          t11' <- while_loop (R := (list Z * list Z)) fuel
+            (fun '(high, carry, j) => (j <? N))
+            (fun '(high, carry, j) =>
+              t7' <- usub (i + j) N ;;
+              let index := t7' in
+              t8' <- arr_get high index ;;
+              let d := t8' in
+              t9' <- arr_get self i ;;
+              t10' <- arr_get rhs j ;;
+              let '(new_digit, new_carry) := (DigitGen.carrying_mul w t9' t10' carry d) in
+              let carry := new_carry in
+              high <- arr_set high index new_digit ;;
+              let j := (j + 1) in
+              Done (Continue (high, carry, j)))
+            (high, carry, j) ;;
+          match t11' with
+          | Exited (high, carry, j) =>
+              high <- arr_set high i carry ;;
+              let i := (i + 1) in
+              Done (Continue (low, high, carry, i))
+          | Returned t12' => Done (Return t12')
+          end
+      | Returned t6' => Done (Return t6')
+      end)
+    (low, high, carry, i) ;;
+  match t13' with
+  | Exited (low, high, carry, i) =>
+      Done (low, high)
+  | Returned t14' => Done t14'
+  end.
+
 (* src/random.rs: macro random!, impl Distribution<$BUint<N>> for Standard, fn sample *)
 Definition U_standard (w N : Z) (fuel : nat) (rng : Random.stream) : res (drawn (list Z)) :=
   let digits := (repeat 0 (Z.to_nat N)) in
